@@ -251,9 +251,13 @@ def importState (tz : Int) (files : List FileJ) (pre : List PemJ) (ranks : Strin
         | .ok content =>
           let content := { content with alias_ := alias_ }
           match ents.find? (·.alias_ = alias_) with
-          | some prev => if prev.configPath != f.path then dup := true
+          | some prev => if prev.configPath != f.path && !dup then dup := true; issues := ["duplicateAlias"] ++ issues
           | none =>
             let pemPath := artifactFileName f.path
+            -- importCertConfigFile: no two entities may share an artifact file
+            if (ents.any fun o => artifactFileName o.configPath = pemPath) then
+              if !dup then dup := true; issues := ["duplicateArtifact"] ++ issues
+              continue
             let art := artifactOf pre keys pemPath
             let pemJ := pre.find? (·.path = pemPath)
             let meta_ : Db.Meta :=
@@ -288,7 +292,7 @@ def replayRun (tz : Int) (files : List FileJ) (strat : Nat) (fault : Option Faul
   let (s0, dup, parseIssues) := importState tz files pre ranks keys nowOf
   let ents := s0.entities
   -- Open
-  let expectOpen := if dup then "duplicateAlias" else if !Db.isConsistent s0 then "inconsistent" else ""
+  let expectOpen := if dup then parseIssues.headD "duplicateAlias" else if !Db.isConsistent s0 then "inconsistent" else ""
   if expectOpen != o.openErr then
     return { corr := false, spec := o.openErr != "" || expectOpen == "", clause := s!"C18: Open returned '{o.openErr}', model expects '{expectOpen}'", branch := "open" }
   if expectOpen != "" then
